@@ -21,7 +21,8 @@ RULE = ("cases = (psk, server name variant, expected-name setting, message seque
         "(name relation, cut-position classes incl. which frame/header is straddled, message-size classes, buffer type)"
         " Part S: real APIClient.connect() on the simulated loop against the independent Noise device with its first chunk (hello + handshake [+ 2 data "
         "frames written right behind the handshake]) cut at EVERY offset, name rule end to end (BadNameAPIError.received_name, nothing sent on), and "
-        "send_messages before readiness (ConnectionNotEstablishedAPIError, zero transport writes).")
+        "send_messages before readiness (ConnectionNotEstablishedAPIError, zero transport writes)."
+        " Long sessions: 1100-4200 (quick) / 9000-70000 (thorough) frames in ONE session, delivered whole, frame by frame, in 1460-byte segments and with random cuts (receive counter boundaries).")
 ASSUMPTIONS = [
     "independent NNpsk0 responder (spec-derived, cross-checked against noiseprotocol default backend at setup)",
     "a hello without a device name is accepted whatever the expected name (nothing announced to reject): recorded, not judged",
@@ -231,6 +232,27 @@ def shard(ctx: Ctx) -> None:
                         res.sample({"name": nlabel, "expected": elabel, "msgs": [(ty, len(p)) for ty, p in msgs],
                                     "cuts": list(cuts[:12]), "n_cuts": len(cuts), "cut_classes": classes, "buffer": kind,
                                     "judged": r["judged"], "stream_len": n})
+    # long sessions: thousands of frames in one session (receive-nonce / counter boundaries 255|256, 1023|1024, 4095|4096, 65535|65536)
+    if ctx.shard < 4:
+        n_frames = (70000 if ctx.shard == 0 else 9000) if ctx.thorough else (1300, 1100, 2100, 4200)[ctx.shard]
+        long_msgs = [(25, bytes([k & 0xFF, (k >> 8) & 0xFF, (k >> 16) & 0xFF])) for k in range(n_frames)]
+        per = 3 + 4 + 3 + 16
+        hello_len = 3 + len(noisew.NoiseServer(bytes(32), b"dev").hello_body())
+        hs_end = hello_len + 3 + 1 + 48
+        total = hs_end + per * n_frames
+        chunk_plans = {"whole": (), "per-frame": tuple(range(hs_end, total, per)), "1460-byte-segments": tuple(range(1460, total, 1460)),
+                       "random-40-cuts": tuple(sorted(rng.sample(range(1, total), 40)))}
+        for clabel, cuts in chunk_plans.items():
+            if ctx.thorough and ctx.shard == 0 and clabel != "1460-byte-segments":
+                continue
+            r = run_case(os.urandom(32), b"dev", None, long_msgs, cuts, "bytes")
+            res.evaluations += 1
+            res.count("chunking/long-session/" + clabel)
+            res.count("messages_delivered_and_checked", r.get("n_delivered") or 0)
+            res.sig("long-session", n_frames, clabel)
+            for key, what in r["problems"]:
+                res.violation(f"C03/{key}", f"[session of {n_frames} frames, {clabel}] {what}"[:600], {"psk": "random", "name": b"dev".hex(), "expected": None,
+                              "msgs": [[25, f"counter x {n_frames}"]], "cuts": list(cuts[:20]), "kind": "bytes", "long_session": n_frames})
     try:
         from vf.props import c03_s  # noqa: PLC0415
     except ImportError:
